@@ -16,8 +16,20 @@ constructed from the table / list before the operation sees it:
           | z r c (M = Matrix(r, c)) | df (M = Matrix())
   vector: rs n | as n x | st i x | cp | eq | se | pa L | ma L | sa | ss | pl L | mi L | ms x (v = v * x) | sm x (v = x * v) | dv x
           | z n (v = Vector(n)) | df (v = Vector())
+The operation is called on the very object the history ran on (not on a copy of it).
 The predicates evaluate every clause against the value a FRESH object would have (reference semantics of the steps: mat_history /
 vec_history below, independent of the Coq model), so an object whose past matters to an operation is a failing input.
+
+Sessions: `life NM T_1 .. T_NM NV L_1 .. L_NV K step_1 .. step_K` keeps NM matrices and NV vectors alive in one process and calls
+members on them one after the other:
+  m k <matrix step>   a step of the list above on matrix object k; the operand of pa / ma / pl / mi and of `af T` (M = T) is a
+                      table or `@j` = live matrix j itself (also j = k)
+  v k <vector step>   the same for vector object k (operands: list or `@j`)
+  o <op> <args>       any operation of this grammar that does not change its operands (const members, operators, ==, the laws),
+                      every matrix / vector argument a table / list or `@j`; its result is printed, followed by `|`
+so that the same question is asked of one object before and after other calls (const ones included), of two objects holding the same
+value, and with live objects as both operands.  Every answer is judged against the definition evaluated on the value a fresh object
+would hold at that point.  `m_atc` / `v_atc` read through the const operator[].
 """
 import math, itertools, struct, sys
 from fractions import Fraction
@@ -28,7 +40,8 @@ EPS = 2.0 ** -53
 SLACK = 64 * EPS      # DESIGN 5.3: |y_impl - y_exact| <= 64*eps*sum|t_k| for a sum of terms t_k (a priori, loose against
                       # the (n+1)*eps of the standard rounding model for n <= 8 terms, tight against any index/coefficient change)
 RULE = ("one case = one call of one spelling (or one law evaluated on the implementation's results) on generated operands, fresh or "
-        "after a generated call history (Resize, Assign, writes, copies, compound assignments) on the same object; "
+        "after a generated call history (Resize, Assign, writes, copies, compound assignments) on the same object, or one session "
+        "(several live objects in one process, calls that change them interleaved with the same questions asked again and again); "
         "non-trivial = the case has a non-square matrix operand or a non-conformable pair (shape guard exercised); distinct by case text")
 LEVEL_TEXT = ("Theorems (Coq/MathComp, every shape and every entry, over an arbitrary commutative ring; the exactness laws over any "
               "number type satisfying only x*y=y*x resp. x*1=x, x*0=0, 0+x=x, x+0=x): see evidence.coverage.theorems. The Gallina model "
@@ -36,7 +49,15 @@ LEVEL_TEXT = ("Theorems (Coq/MathComp, every shape and every entry, over an arbi
               "of the property is also evaluated on the implementation's own results (S4), on fresh operands and on operands that "
               "reached their state through a call history (Resize, Assign, element writes, copies, compound assignments; model "
               "coq/C04_State.v, theorems C04_resize, C04_resize_accessors, C04_assign_set_copy, C04_vector_state: Resize/Assign "
-              "re-establish the class invariant from any previous state, so the storage-based accessors agree with Rows()/Columns()).")
+              "re-establish the class invariant from any previous state, so the storage-based accessors agree with Rows()/Columns()), "
+              "and in sessions: several live objects in one process, every member that changes an object interleaved with the const "
+              "members / operators / laws asked of the same object before and after, of twin objects, and with live objects (the "
+              "object itself included) as operands (model coq/C04_Life.v; theorems C04_life_step, C04_life_invariant, "
+              "C04_life_compound, C04_life_vector: a call touches only its object, every changing call re-establishes the "
+              "invariant so the theorems about const members apply at every point of a life, += / -= leave the same object as "
+              "= A + B / = A - B). That an answer of a const member depends on nothing but the current (rows, columns, components) "
+              "is how the model is built (the classes have no other data member), not a theorem about the C++: it is what the "
+              "sessions test, each answer being judged against the definition on the value a fresh object would hold.")
 LEVEL_NOTE = ("Coq 8.16.1 + MathComp 1.15; theorems are axiom-free; hand-written model tied by differential correspondence (extraction with "
               "ExtrOcamlBasic only). Theorems are about exact arithmetic in a commutative ring / field (the exact values of the doubles); "
               "the laws proved from commutativity / unit laws alone hold for IEEE doubles as numbers (==) for finite entries. "
@@ -90,72 +111,157 @@ class Rd:
         r, c = s.int(), s.int(); return (r, c, [[s.num() for _ in range(c)] for _ in range(r)])
 
 
+def obj_ref(s):
+    """`@j` at the reading position -> j, else None"""
+    if s.i < len(s.t) and s.t[s.i].startswith("@"): s.i += 1; return int(s.t[s.i - 1][1:])
+    return None
+
+
+def mat_step(s, st, R, C, M, operand):
+    """reference semantics of one matrix step: (rows, columns, entries) of the object after the call"""
+    if st == "rs":
+        p, q = s.int(), s.int()
+        M = [[M[i][j] if (i < R and j < C) else 0.0 for j in range(q)] for i in range(p)]; R, C = p, q
+    elif st == "as":
+        p, q = s.int(), s.int(); e = s.num(); M = [[e] * q for _ in range(p)]; R, C = p, q
+    elif st == "dr":
+        i = s.int()
+        if not 0 <= i < R: raise ExpectExit
+        M = [r for a, r in enumerate(M) if a != i]; R -= 1
+    elif st == "dc":
+        j = s.int()
+        if not 0 <= j < C: raise ExpectExit
+        M = [[x for b, x in enumerate(r) if b != j] for r in M]; C -= 1
+    elif st == "st":
+        i, j = s.int(), s.int(); x = s.num()
+        if not 0 <= i < R: raise ExpectExit
+        if not 0 <= j < C: raise Skip
+        M = [list(r) for r in M]; M[i][j] = x
+    elif st in ("cp", "eq", "se"): pass
+    elif st == "af":
+        R, C, B = operand(); M = [list(r) for r in B]
+    elif st in ("pa", "ma", "pl", "mi"):
+        p, q, B = operand()
+        if (p, q) != (R, C): raise ExpectExit
+        M = [[(a + b) if st in ("pa", "pl") else (a - b) for a, b in zip(ra, rb)] for ra, rb in zip(M, B)]
+    elif st == "sa": M = [[a + a for a in r] for r in M]
+    elif st == "ss": M = [[a - a for a in r] for r in M]
+    elif st == "tr":
+        if R == 0 or C == 0: raise Skip
+        M = T(M); R, C = C, R
+    elif st == "ms": x = s.num(); M = [[x * a for a in r] for r in M]
+    elif st == "dv": x = s.num(); M = [[fdiv(a, x) for a in r] for r in M]
+    elif st == "z": p, q = s.int(), s.int(); M = [[0.0] * q for _ in range(p)]; R, C = p, q
+    elif st == "df": M = [[1.0 if i == j else 0.0 for j in range(3)] for i in range(3)]; R, C = 3, 3
+    else: raise Skip
+    return R, C, M
+
+
+def table_obj(A):
+    """(rows, columns, entries) of Matrix(table); a ragged table is not a matrix"""
+    C = len(A[0]) if A else 0
+    if any(len(r) != C for r in A): raise ExpectExit
+    return len(A), C, [list(r) for r in A]
+
+
 def mat_history(s, A):
     """reference semantics of the matrix steps: the value of the object after the history, as a fresh table"""
-    R = len(A); C = len(A[0]) if A else 0; M = [list(r) for r in A]
-    if any(len(r) != C for r in M): raise ExpectExit
+    R, C, M = table_obj(A)
     for _ in range(s.int()):
-        st = s.word()
-        if st == "rs":
-            p, q = s.int(), s.int()
-            M = [[M[i][j] if (i < R and j < C) else 0.0 for j in range(q)] for i in range(p)]; R, C = p, q
-        elif st == "as":
-            p, q = s.int(), s.int(); e = s.num(); M = [[e] * q for _ in range(p)]; R, C = p, q
-        elif st == "dr":
-            i = s.int()
-            if not 0 <= i < R: raise ExpectExit
-            del M[i]; R -= 1
-        elif st == "dc":
-            j = s.int()
-            if not 0 <= j < C: raise ExpectExit
-            M = [[x for b, x in enumerate(r) if b != j] for r in M]; C -= 1
-        elif st == "st":
-            i, j = s.int(), s.int(); x = s.num()
-            if not 0 <= i < R: raise ExpectExit
-            if not 0 <= j < C: raise Skip
-            M[i][j] = x
-        elif st in ("cp", "eq", "se"): pass
-        elif st in ("pa", "ma", "pl", "mi"):
-            B = s.plain_table()
-            if (len(B), len(B[0]) if B else 0) != (R, C) or any(len(r) != C for r in B): raise ExpectExit
-            M = [[(a + b) if st in ("pa", "pl") else (a - b) for a, b in zip(ra, rb)] for ra, rb in zip(M, B)]
-        elif st == "sa": M = [[a + a for a in r] for r in M]
-        elif st == "ss": M = [[a - a for a in r] for r in M]
-        elif st == "tr":
-            if R == 0 or C == 0: raise Skip
-            M = T(M); R, C = C, R
-        elif st == "ms": x = s.num(); M = [[x * a for a in r] for r in M]
-        elif st == "dv": x = s.num(); M = [[fdiv(a, x) for a in r] for r in M]
-        elif st == "z": p, q = s.int(), s.int(); M = [[0.0] * q for _ in range(p)]; R, C = p, q
-        elif st == "df": M = [[1.0 if i == j else 0.0 for j in range(3)] for i in range(3)]; R, C = 3, 3
-        else: raise Skip
+        R, C, M = mat_step(s, s.word(), R, C, M, lambda: table_obj(s.plain_table()))
     if R == 0 or C == 0: raise Skip
     return M
+
+
+def vec_step(s, st, v, operand):
+    if st == "rs": n = s.int(); v = [v[i] if i < len(v) else 0.0 for i in range(n)]
+    elif st == "as": n = s.int(); e = s.num(); v = [e] * n
+    elif st == "st":
+        i = s.int(); x = s.num()
+        if not 0 <= i < len(v): raise ExpectExit
+        v = list(v); v[i] = x
+    elif st in ("cp", "eq", "se"): pass
+    elif st == "af": v = list(operand())
+    elif st in ("pa", "ma", "pl", "mi"):
+        b = operand()
+        if len(b) != len(v): raise ExpectExit
+        v = [(x + y) if st in ("pa", "pl") else (x - y) for x, y in zip(v, b)]
+    elif st == "sa": v = [x + x for x in v]
+    elif st == "ss": v = [x - x for x in v]
+    elif st in ("ms", "sm"): x = s.num(); v = [a * x for a in v]
+    elif st == "dv": x = s.num(); v = [fdiv(a, x) for a in v]
+    elif st == "z": v = [0.0] * s.int()
+    elif st == "df": v = [0.0] * 3
+    else: raise Skip
+    return v
 
 
 def vec_history(s, v):
     v = list(v)
     for _ in range(s.int()):
-        st = s.word()
-        if st == "rs": n = s.int(); v = [v[i] if i < len(v) else 0.0 for i in range(n)]
-        elif st == "as": n = s.int(); e = s.num(); v = [e] * n
-        elif st == "st":
-            i = s.int(); x = s.num()
-            if not 0 <= i < len(v): raise ExpectExit
-            v[i] = x
-        elif st in ("cp", "eq", "se"): pass
-        elif st in ("pa", "ma", "pl", "mi"):
-            b = s.plain_list()
-            if len(b) != len(v): raise ExpectExit
-            v = [(x + y) if st in ("pa", "pl") else (x - y) for x, y in zip(v, b)]
-        elif st == "sa": v = [x + x for x in v]
-        elif st == "ss": v = [x - x for x in v]
-        elif st in ("ms", "sm"): x = s.num(); v = [a * x for a in v]
-        elif st == "dv": x = s.num(); v = [fdiv(a, x) for a in v]
-        elif st == "z": v = [0.0] * s.int()
-        elif st == "df": v = [0.0] * 3
-        else: raise Skip
+        v = vec_step(s, s.word(), v, s.plain_list)
     return v
+
+
+# arguments of the operations that may appear as `o <op> ...` in a session: M matrix, V vector, s scalar, i integer
+OBS_SIG = {"m_plus": "MM", "m_minus": "MM", "m_op_plus": "MM", "m_op_minus": "MM", "m_prod": "MM", "m_op_mul": "MM", "m_eq": "MM",
+           "law_trprod": "MM", "m_prod_s": "Ms", "m_op_mul_s": "Ms", "m_div": "Ms", "m_op_div": "Ms", "s_mul_m": "sM",
+           "m_prod_v": "MV", "m_op_mul_v": "MV", "law_matvec": "MV", "v_mul_m": "VM", "law_vecmat": "VM",
+           "transpose": "M", "trace": "M", "m_norm": "M", "square": "M", "symmetric": "M", "antisymmetric": "M", "diagonal": "M",
+           "law_trtr": "M", "law_mulid": "M", "m_show": "M", "sub_matrix": "Mii", "return_row": "Mi", "return_column": "Mi",
+           "m_at": "Mii", "m_atc": "Mii",
+           "v_add": "VV", "v_sub": "VV", "v_dot": "VV", "v_op_mul": "VV", "v_cross": "VV", "law_cross": "VV", "law_dotouter": "VV",
+           "outer": "VV", "v_eq": "VV", "v_norm": "V", "v_show": "V", "v_scale": "Vs", "v_div": "Vs", "s_mul_v": "sV",
+           "v_at": "Vi", "v_atc": "Vi"}
+
+
+def life_predicates(c, io):
+    """a session: the reference state of every live object is advanced step by step; every `o` step is judged, as a call of its own,
+    against the definition on the values the objects hold at that point (the clauses of _predicates)"""
+    s = Rd(c.line); s.hist = False
+    ex = io.startswith("EXIT")
+    chunks = [[]]
+    for t in io.split():
+        if t == "|": chunks.append([])
+        else: chunks[-1].append(t)
+    out = []; seen = 0; step = 0
+    try:
+        ms = [table_obj(s.plain_table()) for _ in range(s.int())]
+        vs = [s.plain_list() for _ in range(s.int())]
+        def m_operand():
+            j = obj_ref(s)
+            return ms[j] if j is not None else table_obj(s.plain_table())
+        def v_operand():
+            j = obj_ref(s)
+            return vs[j] if j is not None else s.plain_list()
+        for step in range(1, s.int() + 1):
+            w = s.word()
+            if w == "m":
+                k = s.int(); ms[k] = mat_step(s, s.word(), *ms[k], m_operand)
+            elif w == "v":
+                k = s.int(); vs[k] = vec_step(s, s.word(), vs[k], v_operand)
+            else:
+                op = s.word(); args = []
+                for a in OBS_SIG[op]:
+                    if a == "M":
+                        R, C, M = m_operand()
+                        if R == 0 or C == 0: raise Skip
+                        args.append(mtab(M))
+                    elif a == "V": args.append(flist(v_operand()))
+                    else: args.append(s.word())
+                call = Case(f"{op} " + " ".join(args))
+                if not _predicates(call, "EXIT"): raise ExpectExit        # by the definition this call is not defined
+                if ex: continue
+                if seen + 1 >= len(chunks): out.append((f"{op}:protocol:life", f"step {step}: no answer printed")); return out
+                for sig, msg in _predicates(call, " ".join(chunks[seen])):
+                    out.append((sig + ":life", f"step {step} of the session ({op} on objects with a past in this process): {msg}"))
+                seen += 1
+                if out: return out
+    except ExpectExit:
+        if ex: return []
+        return [("life:guard", f"step {step} of the session is not defined, yet the process went on")]
+    if ex: return [("life:defined", "every step of the session is defined, yet the process was terminated")]
+    return out
 
 
 class Out:
@@ -424,6 +530,270 @@ def hist_value(text, vector=False):
     return r.list() if vector else r.table()
 
 
+
+# ---- coincidences: an exact instance of a predicate spoilt in SEVERAL places at once, so that a cheap aggregate of the entries
+#      (trace, sum of all entries, every row and column sum, the norm, the multiset of entries, A - A^T resp. A + A^T) still has the
+#      value it has for an instance, while the entry-wise definition fails
+COINCIDENCES = ["traceless-diagonal", "sym-pair", "anti-pair", "two-offdiag", "swap", "row-col-sums", "negate-row", "diag-swap"]
+
+
+def zero_sum(rng, k):
+    """k >= 2 non-zero doubles whose floating-point sum, taken left to right from 0.0, is exactly 0.0"""
+    r = rng.random()
+    if k >= 3 and r < 0.3:       # mixed magnitudes: the small ones are absorbed
+        big = rng.choice([1e20, 2.0 ** 60, 1e300, 3e17]); d = [big] + [float(rng.randint(1, 9)) * rng.choice([1.0, 0.5, 1e-3]) for _ in range(k - 2)] + [-big]
+    elif r < 0.6:                # small dyadic numbers, exact arithmetic
+        d = [rng.choice([0.25, 0.5, 0.75, 1.0, 1.5, 2.0, 3.0, 5.0]) * rng.choice([-1, 1]) for _ in range(k - 1)]; d.append(-sum(d))
+    else:                        # +x, -x pairs of any size (and one more pair split in two when k is odd)
+        d = []
+        while len(d) + 2 <= k: x = entry(rng, rng.choice(["mixed", "wide", "dyadic", "int"])) or 1.0; d += [x, -x]
+        if len(d) < k: d.append(0.0)
+        if rng.random() < 0.5 and k > 2: rng.shuffle(d)
+    t = 0.0
+    for x in d: t += x
+    if t != 0.0 or all(x == 0 for x in d): d = [1.0, -1.0] + [0.0] * (k - 2)
+    return d
+
+
+def coincide(rng, S, how):
+    """S (n x n, n >= 2) spoilt in the manner `how`"""
+    n = len(S); M = [list(r) for r in S]
+    def offdiag():
+        i = rng.randrange(n); j = rng.choice([b for b in range(n) if b != i]); return i, j
+    d = rng.choice([1.0, 0.5, -2.0, 3.0, entry(rng, "mixed") or 1.0])
+    if how == "traceless-diagonal":
+        k = rng.randint(2, n); pos = sorted(rng.sample(range(n), k)); z = zero_sum(rng, k)
+        for i, x in zip(pos, z): M[i][i] = (M[i][i] + x) if (M[i][i] != 0 and rng.random() < 0.5) else x
+    elif how == "sym-pair": i, j = offdiag(); M[i][j] += d; M[j][i] += d
+    elif how == "anti-pair": i, j = offdiag(); M[i][j] += d; M[j][i] -= d
+    elif how == "two-offdiag":
+        i, j = offdiag(); k, l = offdiag()
+        if (k, l) in ((i, j), (j, i)): k, l = (j, i) if n == 2 else ((i + 1) % n, (j + 1) % n) if (i + 1) % n != (j + 1) % n else (j, i)
+        M[i][j] += d; M[k][l] -= d
+    elif how == "swap":
+        i, j = offdiag(); k, l = rng.randrange(n), rng.randrange(n)
+        if M[i][j] == M[k][l]: M[i][j] += d
+        M[i][j], M[k][l] = M[k][l], M[i][j]
+    elif how == "row-col-sums":
+        i, j = offdiag(); k = rng.choice([a for a in range(n) if a != i]); l = rng.choice([b for b in range(n) if b != j])
+        M[i][j] += d; M[k][l] += d; M[i][l] -= d; M[k][j] -= d
+    elif how == "negate-row":
+        i = rng.randrange(n)
+        if all(x == 0 for x in M[i]): M[i][(i + 1) % n] = d
+        M[i] = [-x for x in M[i]]
+    elif how == "diag-swap":     # two different diagonal entries change places (same trace, same everything but their positions)
+        i, j = offdiag()
+        if M[i][i] == M[j][j]: M[i][i] += d
+        M[i][i], M[j][j] = M[j][j], M[i][i]
+    return M
+
+
+# ---- sessions (grammar in the module docstring): several live objects, member calls on them one after the other, the same
+#      questions asked before and after every call.  The builder tracks the shapes only; every generated step is defined unless
+#      the session is closed by `undefined()`.
+M_PROBES = ["return_column", "return_column", "return_row", "m_show", "m_atc", "m_at", "transpose", "trace", "m_norm", "square",
+            "symmetric", "antisymmetric", "diagonal", "sub_matrix", "m_eq", "sum", "prod", "prod-left", "law_trprod", "law_mulid",
+            "law_trtr", "scalar", "matvec", "vecmat"]
+V_PROBES = ["v_show", "v_atc", "v_at", "v_norm", "dot", "vsum", "v_eq", "outer", "vscalar", "cross"]
+
+
+class Session:
+    def __init__(s, rng, kind):
+        s.rng = rng; s.kind = kind; s.m0 = []; s.v0 = []; s.ms = []; s.vs = []; s.steps = []; s.lits = {}
+    def num(s): return hx(entry(s.rng, s.kind))
+    def scal(s): return hx(entry(s.rng, "mixed") or 2.0)
+    def mat(s, A): s.m0.append(mtab(A)); s.ms.append((len(A), len(A[0]))); return len(s.ms) - 1
+    def vec(s, v): s.v0.append(flist(v)); s.vs.append(len(v)); return len(s.vs) - 1
+    def line(s):
+        return (f"life {len(s.m0)} " + " ".join(s.m0) + f" {len(s.v0)} " + " ".join(s.v0) + f" {len(s.steps)} " + " ".join(s.steps)).replace("  ", " ")
+    def lit(s, key, m, n):
+        """a literal operand of the given shape, the same one whenever the same probe asks again"""
+        if (key, m, n) not in s.lits: s.lits[(key, m, n)] = mtab(rmat(s.rng, m, n, s.kind)) if m else flist(rvec(s.rng, n, s.kind))
+        return s.lits[(key, m, n)]
+    def other(s, k, shp):
+        """a live matrix (not necessarily another one) of the given shape, as `@j`, or None"""
+        c = [j for j, x in enumerate(s.ms) if x == shp]
+        return f"@{s.rng.choice(c)}" if c and s.rng.random() < 0.6 else None
+    def other_v(s, n):
+        c = [j for j, x in enumerate(s.vs) if x == n]
+        return f"@{s.rng.choice(c)}" if c and s.rng.random() < 0.6 else None
+    # -- calls that change matrix k
+    def mutate_m(s, k, inplace=None):
+        rng = s.rng; R, C = s.ms[k]
+        r = rng.random() if inplace is None else (rng.uniform(0, 0.5) if inplace else rng.uniform(0.5, 1))
+        if r < 0.22:
+            st = rng.choice(["pa", "ma", "pa", "ma", "pl", "mi"]); st = f"{st} {s.other(k, (R, C)) or mtab(rmat(rng, R, C, s.kind))}"
+        elif r < 0.30: st = rng.choice(["sa", "ss"])
+        elif r < 0.42: st = f"st {rng.randrange(R)} {rng.randrange(C)} {s.num()}"
+        elif r < 0.46: st = rng.choice(["cp", "eq", "se"])
+        elif r < 0.50: st = f"{rng.choice(['ms', 'dv'])} {s.scal()}"
+        elif r < 0.64:
+            p = max(1, min(8, R + rng.choice([-2, -1, 0, 0, 1, 2]))); q = max(1, min(8, C + rng.choice([-2, -1, 0, 0, 1, 2])))
+            st = f"rs {p} {q}"; s.ms[k] = (p, q)
+        elif r < 0.70: p, q = rng.randint(1, 5), rng.randint(1, 5); st = f"as {p} {q} {s.num()}"; s.ms[k] = (p, q)
+        elif r < 0.76 and R > 1: st = f"dr {rng.randrange(R)}"; s.ms[k] = (R - 1, C)
+        elif r < 0.82 and C > 1: st = f"dc {rng.randrange(C)}"; s.ms[k] = (R, C - 1)
+        elif r < 0.88: st = "tr"; s.ms[k] = (C, R)
+        elif r < 0.95:
+            j = rng.randrange(len(s.ms))
+            if rng.random() < 0.5: st = f"af @{j}"; s.ms[k] = s.ms[j]
+            else: p, q = rng.randint(1, 5), rng.randint(1, 5); st = f"af {mtab(rmat(rng, p, q, s.kind))}"; s.ms[k] = (p, q)
+        elif r < 0.98: p, q = rng.randint(1, 5), rng.randint(1, 5); st = f"z {p} {q}"; s.ms[k] = (p, q)
+        else: st = "df"; s.ms[k] = (3, 3)
+        s.steps.append(f"m {k} {st}")
+    def mutate_v(s, k, inplace=None):
+        rng = s.rng; N = s.vs[k]
+        r = rng.random() if inplace is None else (rng.uniform(0, 0.6) if inplace else rng.uniform(0.6, 1))
+        if r < 0.25: st = f"{rng.choice(['pa', 'ma', 'pa', 'ma', 'pl', 'mi'])} {s.other_v(N) or flist(rvec(rng, N, s.kind))}"
+        elif r < 0.33: st = rng.choice(["sa", "ss"])
+        elif r < 0.45: st = f"st {rng.randrange(N)} {s.num()}"
+        elif r < 0.50: st = rng.choice(["cp", "eq", "se"])
+        elif r < 0.60: st = f"{rng.choice(['ms', 'sm', 'dv'])} {s.scal()}"
+        elif r < 0.78: p = max(1, min(8, N + rng.choice([-2, -1, 1, 2, 0]))); st = f"rs {p}"; s.vs[k] = p
+        elif r < 0.84: p = rng.randint(1, 6); st = f"as {p} {s.num()}"; s.vs[k] = p
+        elif r < 0.94:
+            j = rng.randrange(len(s.vs))
+            if rng.random() < 0.5: st = f"af @{j}"; s.vs[k] = s.vs[j]
+            else: p = rng.randint(1, 6); st = f"af {flist(rvec(rng, p, s.kind))}"; s.vs[k] = p
+        elif r < 0.98: p = rng.randint(1, 5); st = f"z {p}"; s.vs[k] = p
+        else: st = "df"; s.vs[k] = 3
+        s.steps.append(f"v {k} {st}")
+    # -- questions about matrix k that leave it alone; `probe` = (name, u, v, spelling): indices are the fractions u, v of the
+    #    current shape, so that the same probe is the same question as long as the shape stays
+    def new_probe(s, pool): return (s.rng.choice(pool), s.rng.random(), s.rng.random(), s.rng.randrange(1 << 16))
+    def ask_m(s, k, probe):
+        rng = s.rng; name, u, v, sp = probe; R, C = s.ms[k]; i, j = int(u * R), int(v * C); me = f"@{k}"
+        pick = lambda l: l[sp % len(l)]
+        if name in ("return_column",): st = f"{name} {me} {j}"
+        elif name == "return_row": st = f"{name} {me} {i}"
+        elif name in ("m_atc", "m_at", "sub_matrix"): st = f"{name} {me} {i} {j}"
+        elif name in ("m_show", "transpose", "m_norm", "square", "symmetric", "antisymmetric", "diagonal", "law_mulid", "law_trtr"): st = f"{name} {me}"
+        elif name == "trace": st = f"trace {me}" if R == C else f"m_norm {me}"
+        elif name == "m_eq":
+            o_ = s.other(k, (R, C)) or s.lit(probe, R, C); st = f"m_eq {me} {o_}" if sp & 1 else f"m_eq {o_} {me}"
+        elif name == "sum":
+            o_ = s.other(k, (R, C)) or s.lit(probe, R, C); f = pick(["m_plus", "m_minus", "m_op_plus", "m_op_minus"])
+            st = f"{f} {me} {o_}" if sp & 16 else f"{f} {o_} {me}"
+        elif name in ("prod", "law_trprod"):
+            q = 1 + sp % 4; o_ = s.other(k, (C, q)) or s.lit(probe, C, q)
+            st = f"{pick(['m_prod', 'm_op_mul']) if name == 'prod' else name} {me} {o_}"
+        elif name == "prod-left":
+            q = 1 + sp % 4; o_ = s.other(k, (q, R)) or s.lit(probe, q, R); st = f"{pick(['m_prod', 'm_op_mul', 'law_trprod'])} {o_} {me}"
+        elif name == "scalar":
+            f = pick(["m_prod_s", "m_op_mul_s", "m_div", "m_op_div", "s_mul_m"]); x = hx(float(1 + sp % 7) * 0.5)
+            st = f"s_mul_m {x} {me}" if f == "s_mul_m" else f"{f} {me} {x}"
+        elif name == "matvec": st = f"{pick(['m_prod_v', 'm_op_mul_v', 'law_matvec'])} {me} {s.other_v(C) or s.lit(probe, 0, C)}"
+        else: st = f"{pick(['v_mul_m', 'law_vecmat'])} {s.other_v(R) or s.lit(probe, 0, R)} {me}"
+        s.steps.append("o " + st)
+    def ask_v(s, k, probe):
+        name, u, v, sp = probe; N = s.vs[k]; me = f"@{k}"
+        pick = lambda l: l[sp % len(l)]
+        if name in ("v_show", "v_norm"): st = f"{name} {me}"
+        elif name in ("v_atc", "v_at"): st = f"{name} {me} {int(u * N)}"
+        elif name in ("dot", "vsum", "v_eq"):
+            f = pick(["v_dot", "v_op_mul", "law_dotouter"]) if name == "dot" else pick(["v_add", "v_sub"]) if name == "vsum" else "v_eq"
+            o_ = s.other_v(N) or s.lit(probe, 0, N); st = f"{f} {me} {o_}" if sp & 16 else f"{f} {o_} {me}"
+        elif name == "outer": o_ = s.lit(probe, 0, 1 + sp % 4); st = f"outer {me} {o_}" if sp & 16 else f"outer {o_} {me}"
+        elif name == "vscalar":
+            f = pick(["v_scale", "v_div", "s_mul_v"]); x = hx(float(1 + sp % 7) * 0.5)
+            st = f"s_mul_v {x} {me}" if f == "s_mul_v" else f"{f} {me} {x}"
+        else:
+            if N != 3: st = f"v_norm {me}"
+            else: o_ = s.other_v(3) or s.lit(probe, 0, 3); st = f"{'law_cross' if s.kind != 'wide' else 'v_cross'} {me} {o_}" if sp & 16 else f"v_cross {o_} {me}"
+        s.steps.append("o " + st)
+    def undefined(s):
+        """closes the session with a call that is not defined on the objects as they are now"""
+        rng = s.rng
+        if s.ms and (not s.vs or rng.random() < 0.7):
+            k = rng.randrange(len(s.ms)); R, C = s.ms[k]; me = f"@{k}"
+            bad = mtab(rmat(rng, *rng.choice([(R + 1, C), (R, C + 1), (C, R) if R != C else (R + 1, C + 1)]), "int"))
+            s.steps.append(rng.choice([f"m {k} {rng.choice(['pa', 'ma', 'pl', 'mi'])} {bad}", f"m {k} dr {R}", f"m {k} dc {C + rng.randint(0, 2)}",
+                                       f"m {k} st {R} 0 {s.num()}", f"o return_column {me} {C}", f"o return_row {me} {R}", f"o sub_matrix {me} {R} 0",
+                                       f"o sub_matrix {me} 0 {C}", f"o m_atc {me} {R} 0", f"o {rng.choice(['m_plus', 'm_op_minus'])} {me} {bad}",
+                                       f"o {rng.choice(['m_prod', 'm_op_mul'])} {me} {mtab(rmat(rng, C + 1, 2, 'int'))}",
+                                       f"o m_prod_v {me} {flist(rvec(rng, C + 1, 'int'))}", f"o v_mul_m {flist(rvec(rng, R + 1, 'int'))} {me}",
+                                       f"o trace {me}" if R != C else f"m {k} dr {R + 1}"]))
+        else:
+            k = rng.randrange(len(s.vs)); N = s.vs[k]; me = f"@{k}"; bad = flist(rvec(rng, N + rng.choice([1, 2]), "int"))
+            s.steps.append(rng.choice([f"v {k} {rng.choice(['pa', 'ma', 'pl', 'mi'])} {bad}", f"v {k} st {N} {s.num()}", f"o v_atc {me} {N}", f"o v_at {me} {N + 1}",
+                                       f"o {rng.choice(['v_dot', 'v_add', 'v_sub', 'v_op_mul'])} {me} {bad}",
+                                       f"o v_cross {me} {flist(rvec(rng, 3, 'int'))}" if N != 3 else f"o v_cross {me} {flist(rvec(rng, 4, 'int'))}"]))
+
+
+def life_cases(rng, big, add):
+    def HK(): return rng.choice(["int", "int", "mixed", "dyadic", "wide"])
+    # (1) one matrix: the same questions before and after every call (calls that keep the shape twice as often), longer lives too
+    for it in range(3000 if big else 170):
+        s = Session(rng, HK()); m, n = rng.randint(1, 6), rng.randint(1, 6); k = s.mat(rmat(rng, m, n, s.kind))
+        if rng.random() < 0.4: s.vec(rvec(rng, rng.choice([m, n]), s.kind))
+        probes = [s.new_probe(M_PROBES) for _ in range(rng.choice([1, 2, 2, 3]))]
+        if it % 3 == 0: probes[0] = ("return_column",) + probes[0][1:]
+        for p in probes: s.ask_m(k, p)
+        for _ in range(rng.choice([1, 2, 2, 3, 5] if big else [1, 2, 2, 3])):
+            s.mutate_m(k, inplace=rng.random() < 0.65)
+            for p in probes: s.ask_m(k, p)
+        if rng.random() < 0.12: s.undefined()
+        add(s.line(), "life", "matrix", "probe-mutate-probe")
+    # (2) twins: two (three) objects built from the same table, one of them changed (and possibly changed back), both asked
+    for _ in range(1200 if big else 60):
+        s = Session(rng, HK()); A = rmat(rng, rng.randint(1, 5), rng.randint(1, 5), s.kind)
+        ks = [s.mat(A) for _ in range(rng.choice([2, 2, 3]))]
+        probes = [s.new_probe(M_PROBES) for _ in range(2)] + [("m_eq", 0, 0, rng.randrange(1 << 16))]
+        for k in ks: s.ask_m(k, probes[0])
+        for _ in range(rng.randint(1, 3)):
+            s.mutate_m(rng.choice(ks), inplace=rng.random() < 0.7)
+            for k in ks:
+                for p in probes: s.ask_m(k, p)
+        if rng.random() < 0.1: s.undefined()
+        add(s.line(), "life", "matrix", "twins")
+    # (3) live objects as both operands: A (m x n), B (n x q), C (m x n), vectors of sizes n and m
+    for _ in range(1200 if big else 60):
+        s = Session(rng, HK()); m, n, q = rng.randint(1, 5), rng.randint(1, 5), rng.randint(1, 4)
+        a = s.mat(rmat(rng, m, n, s.kind)); b = s.mat(rmat(rng, n, q, s.kind)); c = s.mat(rmat(rng, m, n, s.kind))
+        x = s.vec(rvec(rng, n, s.kind)); y = s.vec(rvec(rng, m, s.kind))
+        def questions():
+            qs = []
+            if s.ms[a][1] == s.ms[b][0]: qs += [f"{rng.choice(['m_prod', 'm_op_mul', 'law_trprod'])} @{a} @{b}"]
+            if s.ms[a] == s.ms[c]: qs += [f"{rng.choice(['m_plus', 'm_op_minus', 'm_eq'])} @{a} @{c}", f"m_op_plus @{c} @{a}"]
+            if s.vs[x] == s.ms[a][1]: qs += [f"{rng.choice(['m_prod_v', 'm_op_mul_v', 'law_matvec'])} @{a} @{x}"]
+            if s.vs[y] == s.ms[a][0]: qs += [f"{rng.choice(['v_mul_m', 'law_vecmat'])} @{y} @{a}"]
+            qs += [f"m_plus @{a} @{a}", f"m_eq @{a} @{a}", f"return_column @{a} {rng.randrange(s.ms[a][1])}", f"outer @{y} @{x}"]
+            if s.ms[a][0] == s.ms[a][1]: qs += [f"m_prod @{a} @{a}"]
+            for t in rng.sample(qs, min(len(qs), 3)): s.steps.append("o " + t)
+        questions()
+        for _ in range(rng.randint(1, 3)):
+            r = rng.random()
+            if r < 0.5: s.mutate_m(rng.choice([a, b, c]), inplace=rng.random() < 0.75)
+            elif r < 0.8: s.mutate_v(rng.choice([x, y]), inplace=rng.random() < 0.75)
+            else: s.steps.append(f"m {a} {rng.choice(['pa', 'ma'])} @{a}")
+            questions()
+        if rng.random() < 0.1: s.undefined()
+        add(s.line(), "life", "operands")
+    # (4) vectors
+    for it in range(1500 if big else 80):
+        s = Session(rng, HK()); n = rng.choice([1, 2, 3, 3, 3, 4, 5, 6])
+        ks = [s.vec(rvec(rng, n, s.kind))]
+        if rng.random() < 0.5: ks.append(s.vec(rvec(rng, n, s.kind)))
+        probes = [s.new_probe(V_PROBES) for _ in range(rng.choice([1, 2, 3]))]
+        for k in ks:
+            for p in probes: s.ask_v(k, p)
+        for _ in range(rng.choice([1, 2, 3])):
+            s.mutate_v(rng.choice(ks), inplace=rng.random() < 0.65)
+            for k in ks:
+                for p in probes: s.ask_v(k, p)
+        if rng.random() < 0.12: s.undefined()
+        add(s.line(), "life", "vector")
+    # (5) larger, then smaller (and back): the storage a Resize leaves behind must not be seen by anything
+    for _ in range(800 if big else 40):
+        s = Session(rng, HK()); m, n = rng.randint(1, 5), rng.randint(1, 5); k = s.mat(rmat(rng, m, n, s.kind))
+        probes = [s.new_probe(M_PROBES) for _ in range(2)]
+        for (p, q) in [(m + rng.randint(1, 3), n + rng.randint(1, 3)), (max(1, m - 1), max(1, n - 1)), (m, n), (m + 1, max(1, n - 1))][:rng.randint(2, 4)]:
+            s.steps.append(f"m {k} rs {p} {q}"); s.ms[k] = (p, q)
+            for pr in probes: s.ask_m(k, pr)
+            if rng.random() < 0.5: s.mutate_m(k, inplace=True); s.ask_m(k, probes[0])
+        add(s.line(), "life", "matrix", "grow-shrink")
+
+
 def generate(rng, tier):
     cs = []
     big = tier != "quick"
@@ -658,6 +1028,29 @@ def generate(rng, tier):
             add(f"m_eq {mtab(A)} {mtab(B)}", "predicate", "near-miss-ladder")
             u = rvec(rng, n, rng.choice(["int", "mixed", "wide"])); v = list(u); i = rng.randrange(n); v[i] = nudge(rng, v[i], step)
             add(f"v_eq {flist(u)} {flist(v)}", "vector", "near-miss-ladder")
+    # ---- predicates and ==: instances spoilt in several places at once (COINCIDENCES): the aggregates an implementation could
+    #      be tempted to test instead of the entries keep the value they have for an instance
+    for rep in range(8 if big else 1):
+        for n in range(2, 7 if big else 6):
+            for base in ("symmetric", "antisymmetric", "diag-generic", "zero", "identity", "scalar"):
+                for how in COINCIDENCES:
+                    S = special_square(rng, n, base); M = coincide(rng, S, how)
+                    for op in ("symmetric", "antisymmetric", "diagonal"):
+                        if big or rng.random() < 0.75 or (op[:4] == base[:4]): add(f"{op} {mtab(M)}", "predicate", "coincidence", how, base)
+                    if big or rng.random() < 0.5: add(f"m_eq {mtab(S)} {mtab(M)}" if rng.random() < 0.5 else f"m_eq {mtab(M)} {mtab(S)}", "predicate", "coincidence", how)
+                    if big or rng.random() < 0.3: add(f"trace {mtab(M)}", "trace", "coincidence", how)
+        # the same for rectangular operands of == and for vectors
+        for _ in range(60 if big else 40):
+            m, n = rng.randint(1, 5), rng.randint(2, 6); A = rmat(rng, m, n, rng.choice(["int", "mixed", "dyadic", "wide"])); B = [list(r_) for r_ in A]
+            i = rng.randrange(m); z = zero_sum(rng, n if rng.random() < 0.5 else 2) + [0.0] * n
+            how = rng.choice(["row-zero-sum", "swap-in-row", "negate", "transposed-shape"])
+            if how == "row-zero-sum": B[i] = [x + y for x, y in zip(B[i], z)]
+            elif how == "swap-in-row": B[i] = B[i][1:] + B[i][:1]
+            elif how == "negate": B = [[-x for x in r_] for r_ in B]
+            else: B = T(A)
+            add(f"m_eq {mtab(A)} {mtab(B)}", "predicate", "coincidence", how)
+            u = A[i]; v = B[i] if how != "transposed-shape" else list(reversed(u))
+            add(f"v_eq {flist(u)} {flist(v)}", "vector", "coincidence", how)
     # ---- structured operands: every kind of SPECIAL as right and as left factor of a product with a rectangular partner, in
     #      the laws, with vectors, and through the functions whose value they share with the unit / zero matrix
     for rep in range(6 if big else 1):
@@ -745,6 +1138,7 @@ def generate(rng, tier):
             t3 = hist_vec(rng, rng.randint(1, 6), k, final=3)[0]
             add(f"hist {'law_cross' if k != 'wide' else 'v_cross'} {t3} {hist_vec(rng, rng.randint(1, 6), k, final=3)[0]}", "history", "vector", "cross")
         else: add(f"hist {op} {tu} {tv}" if rng.random() < 0.7 else f"hist {op} {tv} {tu}", "history", "vector", op)
+    life_cases(rng, big, add)
     for n in range(1, 7):
         add(f"v_at {flist(rvec(rng, n))} {n - 1}", "vector", "v_at"); add(f"v_at {flist(rvec(rng, n))} {n}", "vector", "v_at"); add(f"v_at {flist(rvec(rng, n))} {n + 3}", "vector", "v_at")
     return [c for c in cs if c is not None]
@@ -755,6 +1149,9 @@ def operands(line):
     """shapes of the matrix operands and whether the pair is conformable for the operation"""
     r = Rd(line); op = r.op
     try:
+        if op == "life":
+            r.hist = False
+            return [shape(r.plain_table()) for _ in range(r.int())], True
         if op in SUM_OPS or op == "m_eq":
             A, B = r.table(), r.table(); return [shape(A), shape(B)], shape(A) == shape(B)
         if op in ("m_prod", "m_op_mul", "law_trprod"):
@@ -790,6 +1187,9 @@ def nontrivial(c, io):
 # ---------------------------------------------------------------- S4 predicates
 def predicates(c, io):
     try:
+        if c.line.startswith("life "):
+            if io.startswith(("CRASH", "SANITIZER", "TIMEOUT", "HARNESSERR")): return []
+            return life_predicates(c, io)
         return _predicates(c, io)
     except ExpectExit:
         if io.startswith("EXIT"): return []
@@ -974,11 +1374,11 @@ def _predicates(c, io):
             E = [row for a, row in enumerate(A) if a != i] if op == "delete_row" else [[x for b, x in enumerate(row) if b != i] for row in A]
             rr, cc, G = o.mat()
             if (rr, cc) != ((m - 1, n) if op == "delete_row" else (m, n - 1)) or not meq(G, E): bad("definition", f"{op}({i}) result wrong")
-    elif op == "m_at":
+    elif op in ("m_at", "m_atc"):
         A = r.table(); i, j = r.int(), r.int()
         if guard(i >= len(A), f"M[{i}] of a matrix with {len(A)} rows"): return out
         if not feq(o.num(), A[i][j]): bad("definition", "M[i][j] is not the entry")
-    elif op == "v_at":
+    elif op in ("v_at", "v_atc"):
         v = r.list(); i = r.int()
         if guard(not (0 <= i < len(v)), f"v[{i}] of a vector of size {len(v)}"): return out
         if not feq(o.num(), v[i]): bad("definition", "v[i] is not the component")
